@@ -200,19 +200,141 @@ pub fn run(cfg: Cfg, t: &Tables, ops: &[Op], plan: &Plan, seen: &Mutex<HashSet<u
     fr
 }
 
+fn plan_to_string(p: &Plan) -> String {
+    let a: Vec<String> = p.answers.iter().map(|(i, c)| format!("{i}:{c}")).collect();
+    format!("{}|{}", a.join(","), p.fail_from.map_or("-".to_string(), |f| f.to_string()))
+}
+
+fn plan_from_string(s: &str) -> Plan {
+    let (a, f) = s.split_once('|').unwrap_or((s, "-"));
+    let answers = a
+        .split(',')
+        .filter(|x| !x.is_empty())
+        .filter_map(|x| x.split_once(':').map(|(i, c)| (i.parse().unwrap_or(0), c.parse().unwrap_or(1))))
+        .collect();
+    Plan { answers, fail_from: f.parse().ok() }
+}
+
+struct PlanResult {
+    plan: Plan,
+    calls: Vec<CallKind>,
+    problems: Vec<String>,
+    machinery: Option<String>,
+    images: u64,
+    recoveries: u64,
+    outs_hash: u64,
+}
+
+/// Child entry: `fv c09-worker <thorough> <workload index> <file with one plan per line>`.
+/// (feoxdb keeps every file that saw an indeterminate write open for the life of the
+/// process; running plans in short-lived children keeps the descriptor count bounded.)
+pub fn worker(args: &[String]) -> i32 {
+    use std::io::Write;
+    let thorough = args[0] == "1";
+    let wi: usize = args[1].parse().unwrap();
+    let text = std::fs::read_to_string(&args[2]).unwrap_or_default();
+    let t = tables();
+    let (_, cfg, ops) = workloads(thorough).swap_remove(wi);
+    let seen: Mutex<HashSet<u128>> = Mutex::new(HashSet::new());
+    let out = std::io::stdout();
+    for line in text.lines().filter(|l| !l.is_empty()) {
+        let plan = plan_from_string(line);
+        let r = run(cfg, &t, &ops, &plan, &seen);
+        let calls: String = r.calls.iter().map(|c| if *c == CallKind::Write { 'W' } else { 'F' }).collect();
+        let mut o = out.lock();
+        let _ = writeln!(o, "R\t{line}\t{calls}\t{}\t{}\t{}", r.images, r.recoveries, hash64(&[format!("{:?}", r.outs).as_bytes()]));
+        if let Some(m) = r.machinery {
+            let _ = writeln!(o, "M\t{line}\t{}", m.replace('\n', " "));
+        }
+        for p in r.problems {
+            let _ = writeln!(o, "P\t{line}\t{}", p.replace('\n', " // "));
+        }
+        let _ = o.flush();
+    }
+    0
+}
+
+fn exec_plans(thorough: bool, wi: usize, plans: Vec<Plan>, dl: &Deadline, stop: &AtomicBool) -> Vec<PlanResult> {
+    let exe = std::env::current_exe().expect("own path");
+    let dir = crate::util::scratch_root();
+    let threads = crate::util::worker_threads();
+    let chunk = (plans.len().div_ceil(threads)).clamp(1, 1500);
+    let chunks: Vec<Vec<Plan>> = plans.chunks(chunk).map(|c| c.to_vec()).collect();
+    let results: Mutex<Vec<PlanResult>> = Mutex::new(Vec::new());
+    let counter = AtomicU64::new(0);
+    par_for_each(chunks, threads, stop, |_, chunk| {
+        if dl.expired() {
+            stop.store(true, Ordering::Relaxed);
+            return;
+        }
+        let id = counter.fetch_add(1, Ordering::Relaxed);
+        let file = dir.join(format!("c09-plans-{wi}-{id}-{}.txt", std::process::id()));
+        let text: String = chunk.iter().map(|p| plan_to_string(p) + "\n").collect();
+        std::fs::write(&file, text).unwrap();
+        let out = std::process::Command::new(&exe)
+            .args(["c09-worker", if thorough { "1" } else { "0" }, &wi.to_string(), file.to_str().unwrap()])
+            .stderr(std::process::Stdio::null())
+            .output();
+        let _ = std::fs::remove_file(&file);
+        let Ok(out) = out else { return };
+        let text = String::from_utf8_lossy(&out.stdout);
+        let mut local: Vec<PlanResult> = Vec::new();
+        for line in text.lines() {
+            let f: Vec<&str> = line.split('\t').collect();
+            match f.first().copied() {
+                Some("R") if f.len() >= 6 => local.push(PlanResult {
+                    plan: plan_from_string(f[1]),
+                    calls: f[2].chars().map(|c| if c == 'W' { CallKind::Write } else { CallKind::Fsync }).collect(),
+                    problems: Vec::new(),
+                    machinery: None,
+                    images: f[3].parse().unwrap_or(0),
+                    recoveries: f[4].parse().unwrap_or(0),
+                    outs_hash: f[5].parse().unwrap_or(0),
+                }),
+                Some("P") if f.len() >= 3 => {
+                    if let Some(l) = local.last_mut() {
+                        l.problems.push(f[2].to_string());
+                    }
+                }
+                Some("M") if f.len() >= 3 => {
+                    if let Some(l) = local.last_mut() {
+                        l.machinery = Some(f[2].to_string());
+                    }
+                }
+                _ => {}
+            }
+        }
+        if !out.status.success() {
+            // the child died: the plan after the last reported one is the culprit
+            let next = chunk.get(local.len()).cloned().unwrap_or(Plan { answers: vec![], fail_from: None });
+            local.push(PlanResult {
+                plan: next,
+                calls: Vec::new(),
+                problems: vec![format!("C09: the process executing this fault plan died abnormally ({:?})", out.status)],
+                machinery: None,
+                images: 0,
+                recoveries: 0,
+                outs_hash: 0,
+            });
+        }
+        results.lock().unwrap().extend(local);
+    });
+    results.into_inner().unwrap()
+}
+
 pub fn check(tier: &str, budget_s: f64, report: &mut Report) {
     let thorough = tier == "thorough";
     let t = tables();
     let dl = Deadline::new(budget_s);
-    let threads = crate::util::worker_threads();
     let seen: Mutex<HashSet<u128>> = Mutex::new(HashSet::new());
-    let runs = AtomicU64::new(0);
-    let images = AtomicU64::new(0);
-    let recoveries = AtomicU64::new(0);
-    let outcome_set: Mutex<HashSet<u64>> = Mutex::new(HashSet::new());
+    let mut runs = 0u64;
+    let mut images = 0u64;
+    let mut recoveries = 0u64;
+    let mut outcome_set: HashSet<u64> = HashSet::new();
     let mut per = serde_json::Map::new();
     let mut exhaustive = true;
-    for (name, cfg, ops) in workloads(thorough) {
+    let max_dev: usize = if thorough { 3 } else { 2 };
+    for (wi, (name, cfg, ops)) in workloads(thorough).into_iter().enumerate() {
         // 0 deviations: learn the call sequence
         let base_run = run(cfg, &t, &ops, &Plan { answers: vec![], fail_from: None }, &seen);
         if let Some(m) = base_run.machinery {
@@ -223,79 +345,71 @@ pub fn check(tier: &str, budget_s: f64, report: &mut Report) {
             report.violation(format!("fault|{name}|no-fault|{}", p.chars().take(120).collect::<String>()), format!("workload {name} without faults: {p}"), json!({"engine":"fault","workload":name,"plan":"none"}));
         }
         let n = base_run.calls.len();
-        let mut plans: Vec<Plan> = Vec::new();
+        let mut level: Vec<Plan> = Vec::new();
         for i in 0..n {
             let codes: &[u8] = if base_run.calls[i] == CallKind::Write { &[1, 2, 3] } else { &[1, 2] };
             for &c in codes {
-                plans.push(Plan { answers: vec![(i, c)], fail_from: None });
+                level.push(Plan { answers: vec![(i, c)], fail_from: None });
             }
-            plans.push(Plan { answers: vec![], fail_from: Some(i) });
+            level.push(Plan { answers: vec![], fail_from: Some(i) });
         }
-        let singles = plans.len();
-        // 2 deviations: after a first deviation the call sequence changes, so second
-        // deviations are placed relative to the faulted run's own call sequence
-        let second_level = true;
+        let singles = level.len();
         let stop = AtomicBool::new(false);
-        let bad: Mutex<Vec<(Plan, String)>> = Mutex::new(Vec::new());
-        let next_plans: Mutex<Vec<Plan>> = Mutex::new(Vec::new());
-        let mut level = plans;
-        let mut depth = 1;
+        let mut bad: Vec<(Plan, String)> = Vec::new();
+        let mut depth: usize = 1;
         let mut executed = 0u64;
         let mut completed_levels = 0;
         while !level.is_empty() {
             let n_level = level.len() as u64;
-            par_for_each(std::mem::take(&mut level), threads, &stop, |_, plan| {
-                if dl.expired() {
-                    stop.store(true, Ordering::Relaxed);
-                    return;
-                }
-                let r = run(cfg, &t, &ops, &plan, &seen);
-                runs.fetch_add(1, Ordering::Relaxed);
-                images.fetch_add(r.images, Ordering::Relaxed);
-                recoveries.fetch_add(r.recoveries, Ordering::Relaxed);
-                outcome_set.lock().unwrap().insert(hash64(&[format!("{:?}", r.outs).as_bytes()]));
+            let results = exec_plans(thorough, wi, std::mem::take(&mut level), &dl, &stop);
+            if stop.load(Ordering::Relaxed) || (results.len() as u64) < n_level {
+                exhaustive = false;
+            }
+            let mut next: Vec<Plan> = Vec::new();
+            for r in results {
+                runs += 1;
+                images += r.images;
+                recoveries += r.recoveries;
+                outcome_set.insert(r.outs_hash);
                 if let Some(m) = r.machinery {
-                    bad.lock().unwrap().push((plan.clone(), format!("MACHINERY {m}")));
-                    return;
+                    bad.push((r.plan.clone(), format!("MACHINERY {m}")));
+                    continue;
                 }
                 for p in r.problems {
-                    let mut b = bad.lock().unwrap();
-                    if b.len() < 40 {
-                        b.push((plan.clone(), p));
+                    if bad.len() < 60 {
+                        bad.push((r.plan.clone(), p));
                     }
                 }
-                if second_level && depth == 1 && plan.fail_from.is_none() {
-                    let (i0, _) = plan.answers[0];
-                    let mut np = next_plans.lock().unwrap();
+                // further deviations are placed relative to the faulted run's own call sequence
+                if depth < max_dev && r.plan.fail_from.is_none() && r.plan.answers.len() == depth {
+                    let (i0, _) = *r.plan.answers.last().unwrap();
                     for j in i0 + 1..r.calls.len() {
                         let codes: &[u8] = if r.calls[j] == CallKind::Write { &[1, 2, 3] } else { &[1, 2] };
                         for &c in codes {
-                            let mut a = plan.answers.clone();
+                            let mut a = r.plan.answers.clone();
                             a.push((j, c));
-                            np.push(Plan { answers: a, fail_from: None });
+                            next.push(Plan { answers: a, fail_from: None });
                         }
                     }
                 }
-            });
+            }
             if stop.load(Ordering::Relaxed) {
-                exhaustive = false;
                 break;
             }
             executed += n_level;
             completed_levels = depth;
             depth += 1;
-            level = std::mem::take(&mut *next_plans.lock().unwrap());
-            level.sort();
-            level.dedup();
+            next.sort();
+            next.dedup();
+            level = next;
         }
-        let mut bad = bad.into_inner().unwrap();
         bad.sort();
         for (plan, msg) in bad.into_iter().take(6) {
             if let Some(m) = msg.strip_prefix("MACHINERY ") {
                 report.machinery(format!("[{name}] {m}"));
                 continue;
             }
-            let kinds: Vec<String> = plan.answers.iter().map(|(i, c)| format!("call {i} ({:?}) -> {:?}", base_run.calls.get(*i), answer(*c))).collect();
+            let kinds: Vec<String> = plan.answers.iter().map(|(i, c)| format!("call {i} -> {:?}", answer(*c))).collect();
             report.violation(
                 format!("fault|{name}|{plan:?}|{}", msg.chars().take(120).collect::<String>()),
                 format!("workload {name}: {:?}\nfault plan: {:?} fail_from={:?}\n{msg}", ops.iter().map(|o| t.describe(o)).collect::<Vec<_>>(), kinds, plan.fail_from),
@@ -305,13 +419,13 @@ pub fn check(tier: &str, budget_s: f64, report: &mut Report) {
         per.insert(name.clone(), json!({"device_calls": n, "single_deviation_plans": singles, "plans_executed": executed, "deviation_levels_completed": completed_levels}));
         report.sample(json!({"workload": name, "ops": ops.iter().map(|o| t.describe(o)).collect::<Vec<_>>(), "device_calls": n, "call_kinds": format!("{:?}", base_run.calls)}));
     }
-    let r = runs.load(Ordering::Relaxed);
-    report.add("evaluations", r);
-    report.add("distinct_nontrivial", outcome_set.lock().unwrap().len() as u64);
+    report.add("evaluations", runs);
+    report.add("distinct_nontrivial", outcome_set.len() as u64);
     report.set("rule", "one evaluation = one workload executed under one fault plan (answers for specific device calls, or permanent failure from a call on); distinct_nontrivial counts distinct vectors of call results observed across plans");
-    report.add("crash_images_enumerated", images.load(Ordering::Relaxed));
-    report.add("recoveries_run", recoveries.load(Ordering::Relaxed));
+    report.add("crash_images_enumerated", images);
+    report.add("recoveries_run", recoveries);
     report.set("workloads", serde_json::Value::Object(per));
+    report.set("max_deviations", max_dev);
     report.set("exhaustive", exhaustive);
     report.assumptions.push("faults are injected on the synchronous write path (io_uring disabled); a failed fsync makes nothing newly durable (before) or everything (after)".into());
 }
